@@ -255,9 +255,9 @@ def replayOp (d : RState) (op : Op) : Option (RState × Obs) :=
   | none => none
   | some m =>
     let st := settle m.st
-    let (doneC, pend) := completions st m.pend
-    some ({ st := st, nslow := m.nslow, nasync := m.nasync, released := m.released, pend := pend },
-          { status := m.status, hdr := m.hdr, hang := m.hang, done := m.done ++ doneC,
+    let cp := completions st m.pend
+    some ({ st := st, nslow := m.nslow, nasync := m.nasync, released := m.released, pend := cp.2 },
+          { status := m.status, hdr := m.hdr, hang := m.hang, done := m.done ++ cp.1,
             map := showMap st, srv := showSrv st, log := m.log })
 
 /-- The model's answer to the harness's final sweep (everything released, every request cancelled,
